@@ -13,7 +13,7 @@ import (
 func init() {
 	register(&Prop{
 		ID: "C16",
-		Decided: "(1) the table key encoder is uniquely decodable for composite keys, separates strings from numbers by type tags, and normalises every Go numeric kind to one tag (keyenc); (2) MemoryTableSource.index is accessed only under its RWMutex (writes exclusively), tableStore.sources under its mutex; (3) enrichJoin writes only the fresh working copy (ownmap, shared with C20); (4) the JoinType literals written by parseJoin are exactly the ones enrichJoin distinguishes, the drop return is reachable only on the not-matched, not-LEFT arm, and a matched row is always attached; (5) the lookup key is built from OnPairs in order (StreamField), the same order JoinKeyFields reports for the index (TableField).",
+		Decided: "(1) the table key encoder is uniquely decodable for composite keys, separates strings from numbers by type tags, and normalises every Go numeric kind to one tag (keyenc); (2) MemoryTableSource.index is accessed only under its RWMutex (writes exclusively), tableStore.sources under its mutex; (3) enrichJoin writes only the fresh working copy (ownmap, shared with C20); (4) the JoinType literals written by parseJoin are exactly the ones enrichJoin distinguishes, the drop return is reachable only on the not-matched, not-LEFT arm, and a matched row is always attached; (4b) the table alias is defaulted to the table name before it is used to strip qualifiers from the ON columns; (5) the lookup key is built from OnPairs in order (StreamField), the same order JoinKeyFields reports for the index (TableField).",
 		NotDecided: "read-your-writes across goroutines beyond the lock clause, column projection under aliases, WHERE/GROUP BY over joined columns.",
 		Run: runC16,
 	})
@@ -152,6 +152,7 @@ func runC16(a *A) {
 			a.Check(bad == "", fmt.Sprintf("%s#keep[matched=%v,left=%v]", fname(ej), cs.m, cs.left), ej.Pos(), cs.what, cs.what+" — violated: "+bad)
 		}
 	})
+	a.Rule("flow/alias-default-before-use", 1, func() { a.ruleAliasDefaultBeforeUse() })
 	a.Rule("shape/key-order", 2, func() {
 		ej := a.Method("stream", "Stream", "enrichJoin")
 		jk := a.Method("stream", "Stream", "JoinKeyFields")
@@ -199,4 +200,54 @@ func sortedKeys(m map[string]bool) []string {
 	}
 	sort.Strings(out)
 	return out
+}
+
+// ruleAliasDefaultBeforeUse: in parseJoin the defaulting of the table alias (alias = table name when
+// none is written) happens before the alias is used to strip qualifiers from the ON columns.
+func (a *A) ruleAliasDefaultBeforeUse() {
+	fn := a.Method("rsql", "Parser", "parseJoin")
+	jcT := a.Named("types", "JoinConfig")
+	aliasF, tableF := a.FieldOf(jcT, "Alias"), a.FieldOf(jcT, "Table")
+	// the defaulting store: jc.Alias = jc.Table
+	var def *ssa.Store
+	for _, st := range storesToField(fn, aliasF) {
+		if t := TermOf(st.Val, nil); t.Kind == "field" && t.Field == tableF {
+			def = st
+		}
+		// or the table token's value stored into both
+	}
+	construct := fname(fn) + "#alias-default-before-use"
+	if def == nil {
+		a.Bad(construct, fn.Pos(), "no defaulting of JoinConfig.Alias to the table name found: a JOIN without alias has no namespace for its columns")
+		return
+	}
+	// the merge point after the defaulting if: the block both arms reach = successor of def's block
+	merge := def.Block()
+	if len(merge.Succs) == 1 {
+		merge = merge.Succs[0]
+	}
+	n := 0
+	okAll := true
+	var badPos token.Pos
+	allInstrs(fn, func(in ssa.Instruction) {
+		c, ok := in.(*ssa.Call)
+		if !ok || c.Call.StaticCallee() == nil || !a.fnInModule(c.Call.StaticCallee()) {
+			return
+		}
+		for _, arg := range c.Call.Args {
+			if t := TermOf(arg, nil); t.Kind == "field" && t.Field == aliasF {
+				n++
+				if !(merge.Dominates(c.Block()) || merge == c.Block()) {
+					okAll = false
+					badPos = c.Pos()
+				}
+			}
+		}
+	})
+	if n == 0 {
+		a.Und(construct, fn.Pos(), "the alias is not passed to any helper in parseJoin")
+		return
+	}
+	a.Check(okAll, construct, def.Pos(), fmt.Sprintf("the alias default is applied before all %d uses of the alias in the ON clause", n),
+		"the table alias is used at "+a.pos(badPos)+" before it has been defaulted to the table name: in `JOIN meta ON k = meta.k` the table-side column keeps its qualifier, the index key never matches and every row joins the NULL key")
 }
